@@ -239,11 +239,32 @@ def betas_use(ctx, facts, sites=None):
         good = ds == ["0", "%s += 1" % cnt] and len(incs) == 1 and loops and t.parent.get(id(incs[0])) is loops[0]["body"].get("expr", {}).get("t", None) or \
             (ds == ["0", "%s += 1" % cnt] and len(incs) == 1 and loops and not [c for c in nf.all_conditions(t, incs[0], stop=loops[0]) if c[0] != "cmp" or c[3] not in ("qmax", "self.max_tracker.get_max_value()")])
         par = t.parent.get(id(u))
+        # the statement that adds the product to the race value: `h += w * table[i] * x`, or the same through named parts
+        # (`let scale = w * table[i]; let inc = scale * x; h = h + inc;`): an immutable local with one use is followed to that use
         acc = None
-        for a in t.ancestors(u):
-            if a["k"] == "AssignOp" and a["op"] == "+=":
-                acc = a
+        cur = u
+        for _ in range(5):
+            st_ = None
+            for a in t.ancestors(cur):
+                if a["k"] in ("AssignOp", "Assign", "Let"):
+                    st_ = a
+                    break
+            if st_ is None:
                 break
+            if st_["k"] == "AssignOp" and st_["op"] == "+=":
+                acc = st_
+                break
+            if st_["k"] == "Assign":
+                r_ = nf.strip_casts(st_["r"])
+                if r_["k"] == "Binary" and r_["op"] == "+" and nf.nf(st_["l"]) in (nf.nf(r_["l"]), nf.nf(r_["r"])):
+                    acc = st_
+                break
+            if st_["pat"].get("k") != "Bind" or "Mut" in st_["pat"].get("mode", ""):
+                break
+            uses_ = [x for x in user_nodes(fn) if x["k"] == "Path" and x["res"].get("local") == st_["pat"]["id"] and not hirq.in_log_macro(x)]
+            if len(uses_) != 1:
+                break
+            cur = uses_[0]
         if good and acc is not None and hir_dominates(t, acc, incs[0]):
             ctx.ok("BETAS", fid, "%s += .. * self.%s[%s] .. ; %s += 1 once per draw" % (nf.nf(acc["l"]), table, cnt, cnt), hirq.loc(u))
         else:
